@@ -36,6 +36,19 @@ fn main() {
         }
         return;
     }
+    // `pgv-lib ref-shard <pg|sha1> <n> <k>...` prints the REFERENCE shard of each key (one per line)
+    if args.len() >= 5 && args[1] == "ref-shard" {
+        let f = if args[2] == "sha1" {
+            pgcat::sharding::ShardingFunction::Sha1
+        } else {
+            pgcat::sharding::ShardingFunction::PgBigintHash
+        };
+        let n: usize = args[3].parse().expect("n");
+        for k in &args[4..] {
+            println!("{}", c06::ref_shard_pub(f, k.parse().expect("key"), n));
+        }
+        return;
+    }
     if args.len() != 4 {
         usage();
     }
